@@ -106,6 +106,13 @@ def arg_edits(g, rng, n):
         lambda a, b: [defgen.ident(a), defgen.Tok("p", "/"), defgen.ident("crate"), defgen.Tok("p", "::"), defgen.ident(b)],
         lambda a, b: [defgen.ident("other"), defgen.Tok("p", "::"), defgen.ident(a), defgen.Tok("p", "*"), defgen.ident("m"),
                       defgen.Tok("p", "::"), defgen.ident(b)],
+        # a leading `::`, generic arguments on an operand (a path with ONE segment that is still not an identifier)
+        lambda a, b: [defgen.Tok("p", "::"), defgen.ident(a), defgen.Tok("p", "*"), defgen.ident(b)],
+        lambda a, b: [defgen.ident(a), defgen.Tok("p", "::"), defgen.Tok("p", "<"), defgen.ident("f64"), defgen.Tok("p", ">"),
+                      defgen.Tok("p", "*"), defgen.ident(b)],
+        lambda a, b: [defgen.ident(a), defgen.Tok("p", "/"), defgen.ident(b), defgen.Tok("p", "::"), defgen.Tok("p", "<"), defgen.Tok("p", ">")],
+        lambda a, b: [defgen.Tok("p", "<"), defgen.ident(a), defgen.ident("as"), defgen.ident("Tr"), defgen.Tok("p", ">"), defgen.Tok("p", "::"),
+                      defgen.ident("X"), defgen.Tok("p", "*"), defgen.ident(b)],
         # parenthesised / call / method forms
         lambda a, b: [defgen.Tok("o", "("), defgen.ident(a), defgen.Tok("p", "*"), defgen.ident(b), defgen.Tok("o", ")")],
         lambda a, b: [defgen.ident(a), defgen.Tok("p", "*"), defgen.ident(b), defgen.Tok("o", "("), defgen.Tok("o", ")")],
